@@ -183,3 +183,184 @@ fn heap_reset_and_recount_step() {
     core::mem::forget(fl);
     core::mem::forget(handles);
 }
+
+// ------------------------------------------------------------------ growth: one step
+// `grow_by(amount)` is what `allocate` / `compact` reach through `grow()` when no free slot is left (there with
+// amount = EXTEND_CHUNK = 25 600, which a bounded unrolling cannot follow); the body is the same for a small
+// amount.  From EVERY valid 3-slot state -- including a full heap -- `grow_by(2)`: no existing slot changes,
+// the new slots are free, the free count is exact and the cursor rests on a free slot.
+#[kani::proof]
+#[kani::unwind(8)]
+#[kani::stub(std::rt::thread_cleanup, noop)]
+#[kani::stub(alloc::fmt::format, fmt_stub)]
+fn heap_grow_step() {
+    tag_init();
+    let p = Pre { reachable: kani::any(), value: kani::any(), held: kani::any(), cursor: kani::any() };
+    kani::assume(p.cursor < N);
+    let full = free_count(&p.reachable) == 0;
+    // between operations the cursor rests on a free slot, except on a full heap (where growth is due)
+    kani::assume(full || !p.reachable[p.cursor]);
+    let mut i = 0;
+    while i < N {
+        kani::assume(!p.held[i] || p.reachable[i]);
+        i += 1;
+    }
+    let (mut fl, handles) = build(&p);
+    let before = fl.alloc_count;
+    fl.grow_by(2);
+    kani::cover!(full, "heap was full");
+    kani::cover!(!full && p.held[0], "heap had room and a held handle");
+    let n2 = fl.elements.len();
+    vassert!(n2 > N, "growth added no slots");
+    i = 0;
+    while i < N {
+        let (r, val) = slot_state(&fl, i);
+        vassert!(r == p.reachable[i] && val == p.value[i], "growth changed an existing slot");
+        if p.held[i] {
+            vassert!(handles[i].as_ref().unwrap().get() == p.value[i], "a held handle no longer reads its value after growth");
+        }
+        i += 1;
+    }
+    let mut free = 0;
+    i = 0;
+    while i < n2 {
+        if !slot_state(&fl, i).0 {
+            free += 1;
+        }
+        i += 1;
+    }
+    vassert!(fl.alloc_count == free, "free-slot count out of step with the slots after growth");
+    vassert!(fl.alloc_count == before + (n2 - N), "growth did not add exactly the new slots to the free count");
+    vassert!(fl.cursor < n2 && !slot_state(&fl, fl.cursor).0, "cursor does not rest on a free slot after growth");
+    core::mem::forget(fl);
+    core::mem::forget(handles);
+}
+
+// ------------------------------------------------------------------ host roots: a short symbolic history
+// `Roots` keeps the values a host has rooted, keyed by (generation, offset); a `RootToken` releases its entry
+// when dropped.  History: root(a); g1 generation increments; root(b); g2 increments; free one of the two
+// tokens (symbolic choice).  Afterwards exactly the other value is still rooted -- a released root no longer
+// keeps its value (C19), a root that has not been released still does (C04).  The FxHashMap is replaced by a
+// 4-entry association list (trusted: a finite map), as for the symbol table.
+use std::alloc::Allocator;
+const RCAP: usize = 4;
+static mut RK: [(usize, usize); RCAP] = [(0, 0); RCAP];
+static mut RV: [isize; RCAP] = [0; RCAP];
+static mut RU: [bool; RCAP] = [false; RCAP];
+
+pub struct RootMapStub<K, V, S, A>(core::marker::PhantomData<(K, V, S, A)>);
+impl<K, V, S, A: Allocator> RootMapStub<K, V, S, A> {
+    pub fn insert(_m: &mut std::collections::HashMap<K, V, S, A>, k: K, v: V) -> Option<V> {
+        assert!(core::mem::size_of::<K>() == core::mem::size_of::<(usize, usize)>());
+        let key: (usize, usize) = unsafe { core::mem::transmute_copy(&k) };
+        let sv: &SteelVal = unsafe { &*(&v as *const V as *const SteelVal) };
+        let val = match sv {
+            SteelVal::IntV(i) => *i,
+            _ => {
+                kani::assume(false);
+                0
+            }
+        };
+        core::mem::forget(k);
+        core::mem::forget(v);
+        unsafe {
+            let mut i = 0;
+            while i < RCAP {
+                if RU[i] && RK[i] == key {
+                    RV[i] = val;
+                    kani::assume(false); // the histories below never overwrite an entry
+                    return None;
+                }
+                i += 1;
+            }
+            i = 0;
+            while i < RCAP {
+                if !RU[i] {
+                    RU[i] = true;
+                    RK[i] = key;
+                    RV[i] = val;
+                    return None;
+                }
+                i += 1;
+            }
+        }
+        kani::assume(false);
+        None
+    }
+    pub fn remove<Q: ?Sized>(_m: &mut std::collections::HashMap<K, V, S, A>, k: &Q) -> Option<V> {
+        let key: (usize, usize) = unsafe { core::ptr::read(k as *const Q as *const (usize, usize)) };
+        unsafe {
+            let mut i = 0;
+            while i < RCAP {
+                if RU[i] && RK[i] == key {
+                    RU[i] = false;
+                    return None; // the removed value is only dropped by the caller; IntV has nothing to drop
+                }
+                i += 1;
+            }
+        }
+        None
+    }
+}
+fn rooted(key: (usize, usize)) -> Option<isize> {
+    unsafe {
+        let mut i = 0;
+        while i < RCAP {
+            if RU[i] && RK[i] == key {
+                return Some(RV[i]);
+            }
+            i += 1;
+        }
+    }
+    None
+}
+fn random_state_stub2() -> std::hash::RandomState {
+    unsafe { core::mem::transmute::<[u64; 2], std::hash::RandomState>([1, 2]) }
+}
+
+#[kani::proof]
+#[kani::unwind(6)]
+#[kani::stub(std::rt::thread_cleanup, noop)]
+#[kani::stub(alloc::fmt::format, fmt_stub)]
+#[kani::stub(std::collections::HashMap::insert, RootMapStub::insert)]
+#[kani::stub(std::collections::HashMap::remove, RootMapStub::remove)]
+#[kani::stub(std::hash::RandomState::new, random_state_stub2)]
+fn heap_roots_history() {
+    tag_init();
+    let mut roots = Roots::default();
+    let a: isize = kani::any();
+    let b: isize = kani::any();
+    let g1: u8 = kani::any();
+    let g2: u8 = kani::any();
+    kani::assume(g1 <= 2 && g2 <= 2);
+    let t1 = roots.root(SteelVal::IntV(a));
+    let mut i = 0;
+    while i < g1 {
+        roots.increment_generation();
+        i += 1;
+    }
+    let t2 = roots.root(SteelVal::IntV(b));
+    i = 0;
+    while i < g2 {
+        roots.increment_generation();
+        i += 1;
+    }
+    let k1 = (t1.generation, t1.offset);
+    let k2 = (t2.generation, t2.offset);
+    vassert!(k1 != k2, "two live roots share a key");
+    vassert!(rooted(k1) == Some(a) && rooted(k2) == Some(b), "a value that was just rooted is not in the root set");
+    let first: bool = kani::any();
+    if first {
+        roots.free(&t1);
+    } else {
+        roots.free(&t2);
+    }
+    kani::cover!(first && g1 + g2 > 0, "released a root made in an earlier generation");
+    kani::cover!(!first && g2 == 0, "released a root made in the current generation");
+    let (gone, kept, kept_val) = if first { (k1, k2, b) } else { (k2, k1, a) };
+    vassert!(rooted(gone).is_none(), "a released root still keeps its value alive");
+    vassert!(rooted(kept) == Some(kept_val), "releasing one root dropped another one");
+    core::mem::forget(t1);
+    core::mem::forget(t2);
+    core::mem::forget(roots);
+}
